@@ -167,30 +167,30 @@ def structural(tier, res):
         for f in ('income_total', 'spending_total', 'cash_flow'):
             if f not in b and ("stats.get('%s'" % f) not in ast.unparse(fi.node) and ("stats['%s']" % f) not in ast.unparse(fi.node):
                 bad.append('%s is not taken from stats' % f)
-        out.append(frames.Clause(q + '#figures_are_stats_fields', not bad, '; '.join(bad) if bad else 'figures are single bindings from the analysed stats'))
+        out.append(frames.Clause(q + '#figures_are_stats_fields', not bad, '; '.join(bad) if bad else 'figures are single bindings from the analysed stats', kind='auxiliary'))
     fi = find_function(RP + 'write_summary_file_vue')
     src = ast.unparse(fi.node)
     pairs = {'incomeTotal': 'income_total', 'spendingTotal': 'spending_total', 'creditsTotal': 'credits_total', 'cashFlow': 'cash_flow',
              'transfersIn': 'transfers_in', 'transfersOut': 'transfers_out', 'transfersNet': 'transfers_net', 'investmentTotal': 'investment_total'}
     bad = [k for k, v in pairs.items() if ("'%s': stats.get('%s', 0)" % (k, v)) not in src]
-    out.append(frames.Clause(fi.qualname + '#figures_are_stats_fields', not bad, 'HTML data object: not taken from stats: %s' % bad if bad else 'HTML data object copies the analysed figures'))
+    out.append(frames.Clause(fi.qualname + '#figures_are_stats_fields', not bad, 'HTML data object: not taken from stats: %s' % bad if bad else 'HTML data object copies the analysed figures', kind='auxiliary'))
     fj = find_function(AN + 'export_json')
     sj = ast.unparse(fj.node)
     badj = [k for k in ('income_total', 'credits_total') if ("'%s': round(stats" % k) not in sj and ("'%s': stats" % k) not in sj]
     out.append(frames.Clause(fj.qualname + '#figures_are_stats_fields', not badj,
-                             'JSON summary recomputes %s instead of reporting the analysed figures' % badj if badj else 'JSON summary copies the analysed figures'))
+                             'JSON summary recomputes %s instead of reporting the analysed figures' % badj if badj else 'JSON summary copies the analysed figures', kind='auxiliary'))
     # embedding
     ok_escape = ".replace('</', '<\\\\/')" in src and ".replace('<!--', '\\\\u003c!--')" in src and 'json.dumps(spending_data)' in src
     out.append(frames.Clause(fi.qualname + '#embedded_json_is_escaped_for_script_context', ok_escape,
-                             "json.dumps(...).replace('</', '<\\/').replace('<!--', '\\u003c!--')" if ok_escape else 'the embedded JSON is not escaped for a <script> context'))
+                             "json.dumps(...).replace('</', '<\\/').replace('<!--', '\\u003c!--')" if ok_escape else 'the embedded JSON is not escaped for a <script> context', kind='auxiliary'))
     order = [m for m in ('CSS_PLACEHOLDER', 'JS_PLACEHOLDER', 'DATA_PLACEHOLDER') if True]
     emb = src[src.rfind('else:'):] if 'else:' in src else src
     pos = [emb.find("'/* %s */'" % m) for m in order]
     ok_order = all(p >= 0 for p in pos) and pos[2] > pos[1] and pos[2] > pos[0]
-    out.append(frames.Clause(fi.qualname + '#data_is_substituted_last', ok_order, 'CSS, JS, then DATA' if ok_order else 'the data placeholder is not the last substitution'))
+    out.append(frames.Clause(fi.qualname + '#data_is_substituted_last', ok_order, 'CSS, JS, then DATA' if ok_order else 'the data placeholder is not the last substitution', kind='auxiliary'))
     # transaction ids carry the per-merchant index
     ok_ids = "'id': f'{merchant_id}_{i}'" in src and 'enumerate(' in src
-    out.append(frames.Clause(fi.qualname + '#transaction_ids_unique_per_merchant', ok_ids, "id = f'{merchant_id}_{i}' over enumerate" if ok_ids else 'transaction id lost its index'))
+    out.append(frames.Clause(fi.qualname + '#transaction_ids_unique_per_merchant', ok_ids, "id = f'{merchant_id}_{i}' over enumerate" if ok_ids else 'transaction id lost its index', kind='auxiliary'))
     # renderers cannot fail with ZeroDivisionError: every division by a data-derived quantity sits under a test of that quantity
     # (num_months is at least 1 by analyze_transactions: `len(all_months) if all_months else 12`)
     for q in (AN + 'export_json', AN + 'export_markdown', AN + 'print_summary', AN + 'print_sections_summary', AN + 'build_merchant_json', RP + 'write_summary_file_vue'):
